@@ -178,6 +178,10 @@ def directed_invocations(profile: str) -> T.List[dict]:
         return [dict(b, j=2, slice=[i, 3], group='dslice') for i in (1, 2, 3)]
     if profile == 'zeros':
         return [dict(b, j=8, repeat=2)]
+    if profile == 'protocols':
+        # everything (victims killed at 0.3 s); only the tests scripted good, twice (the second iteration finds the
+        # reports the first one left); everything with the limits as declared
+        return [dict(b, j=3, tmult=0.3), dict(b, j=8, repeat=2, suites=['good']), dict(b, j=8)]
     return []
 
 
@@ -305,20 +309,38 @@ def main() -> int:
                        ('cov:death_by_signal_tap', 1), ('cov:interrupted_in_flight_test_not_plain_exit0', 1),
                        ('cov:output_over_64KiB_without_newline_stdout', 1),
                        ('cov:output_over_64KiB_without_newline_stderr', 1),
-                       ('cov:tap_description_with_hash_passing', 1), ('cov:tap_description_with_hash_failing', 1)):
+                       ('cov:tap_description_with_hash_passing', 1), ('cov:tap_description_with_hash_failing', 1),
+                       # protocols 'gtest' (every kind of XML report x exit status) and 'rust' (libtest lines)
+                       ('cov:gtest_report_full', 1), ('cov:gtest_report_lie', 1), ('cov:gtest_report_none', 1),
+                       ('cov:gtest_report_cut', 1), ('cov:gtest_report_empty', 1), ('cov:gtest_report_garbage', 1),
+                       ('cov:gtest_unreadable_report_exit0', 1), ('cov:gtest_unreadable_report_exit77', 1),
+                       ('cov:gtest_unreadable_report_exitother', 1), ('cov:gtest_unreadable_report_should_fail', 1),
+                       ('cov:gtest_contradicting_report_exit0', 1), ('cov:gtest_contradicting_report_exitother', 1),
+                       ('cov:gtest_victim_TIMEOUT_report_half-written', 1),
+                       ('cov:rust_all-ok-plain', 1), ('cov:rust_all-ok-some-decorated', 1),
+                       ('cov:rust_fail-on-plain-name', 1), ('cov:rust_fail-on-decorated-name-only', 1),
+                       ('cov:rust_fail-on-decorated-name-only_should_fail', 1), ('cov:rust_all-ignored', 1),
+                       ('monitor:rust_subtests_seen', 1)):
         chk.require(m, minimum)
     chk.require('runs_conclusive', int(0.6 * cfg['projects'] * cfg['per_project']))
     if chk.tier == 'thorough':
         chk.require('diag:shake_sleeps', 1)
     return chk.finish(
         rule='one case = one `meson test` invocation (project x options); distinct by (project, options, observed '
-             'START order of the probes); projects drawn from 12 adversarial duration/ordering profiles',
+             'START order of the probes); projects drawn from 12 adversarial duration/ordering profiles and one that '
+             'crosses the protocols gtest (XML report full/contradicting/absent/cut/empty/garbage/stale x exit status, '
+             'also at the time limit) and rust (plain, doctest and decorated libtest names x ok/FAILED/ignored); '
+             'in the other profiles a share of the exit-code tests speak gtest or rust instead',
         assumptions=['time.monotonic_ns() is one system-wide clock (CLOCK_MONOTONIC) shared by all probes',
                      'a probe interval [START, END|TERM] lies inside the process lifetime, so interval overlap '
                      'implies real overlap; absence of overlap in the log does not prove absence of real overlap',
                      'a TIMEOUT of a test that is not a scripted victim is attributed to machine load '
                      '(inconclusive case), never to meson',
                      'TAP streams are limited to well-formed ones whose outcome is undisputed (C18 owns TAP parsing)',
+                     "protocol 'rust': only what libtest itself prints (a FAILED line <=> exit status 101); demanded is "
+                     'good/bad agreement with the exit-status rule, FAIL vs ERROR and OK vs SKIP (nothing ran) are open',
+                     "protocol 'gtest': classified by the exit-status rule alone; nothing is demanded of how the XML "
+                     'report appears in the junit log',
                      'each run samples one interleaving of the asyncio scheduler'],
         exhaustive=False, extra=extra)
 
